@@ -343,7 +343,7 @@ def finish(prop, mod, tier, seed, m, errors, t0, replay=False):
 def run_property(prop, tier, seed, replay_file=None):
     t0 = time.time()
     mod = __import__("vf.props." + prop.lower(), fromlist=["x"])
-    home = isolate.ensure_home()
+    home = isolate.ensure_home(warm=getattr(mod, "NEEDS_MODELS", True))
     if replay_file:
         with open(replay_file) as f:
             w = json.load(f)
